@@ -45,7 +45,7 @@ Judge_dw(e) ==
   On("C10", IF ~Ok(e) THEN << Chk("C10", "VERDICT", "display_width panicked", FALSE) >> ELSE <<
     Chk("C10", "VERDICT", "display_width exceeds the byte length", e.res <= ByteLen(e.s)),
     Chk("C10", "VERDICT", "well-formed text: width is not the sum of the visible characters' widths",
-        WellFormed(e.s) => e.res = DWDecl(e.s)),
+        Parses(e.s) => e.res = DWDecl(e.s)),
     Chk("C10", "DRIFT", "display_width differs from the scanner model", e.res = DW(e.s)) >>)
 
 ScalarOk(c, w, dw) == dw = (IF c = ESC THEN 0 ELSE w) /\ dw <= Utf8Len(c)
@@ -64,7 +64,7 @@ Judge_dwrel(e) ==
       Chk("C10", "TOOL", "insert relation: t is not a with b inserted at pos",
           e.t = SubSeq(e.a, 1, e.pos) \o e.b \o SubSeq(e.a, e.pos + 1, Len(e.a))),
       Chk("C10", "VERDICT", "inserting a well-formed sequence at a character boundary changed the width",
-          (WellFormed(e.a) /\ WellFormed(e.b) /\ StripDecl(e.b) = <<>> /\ Pre(e.a)[e.pos + 1] = "T") => e.rt = e.ra) >>)
+          (Parses(e.a) /\ Parses(e.b) /\ StripDecl(e.b) = <<>> /\ Pre(e.a)[e.pos + 1] = "T") => e.rt = e.ra) >>)
 
 (* ------------------------------------------------------------------------- *)
 (* C11  word finding                                                         *)
